@@ -370,6 +370,43 @@ pub fn eval_session_check(check: &str, case: &Case, replies: &[String]) -> Optio
                 Ok(())
             }
         }
+        // with tracing on, a continued call that executes a statement of numbered line N starts with the record T:N
+        ["traced-calls"] => {
+            let mut res = Ok(());
+            for i in 1..case.ops.len() {
+                if case.ops[i] == "cont" && case.ops[i - 1] == "snap" {
+                    let f = snapshot_fields(&replies[i - 1]);
+                    if field(&f, "trace") != "1" {
+                        continue;
+                    }
+                    let loc = field(&f, "loc");
+                    let mut it = loc.split(':');
+                    let (line, idx) = (it.next().unwrap_or(""), it.next().unwrap_or("0").parse::<usize>().unwrap_or(0));
+                    if line == "imm" || line.is_empty() {
+                        continue;
+                    }
+                    // does the line have a token at the cursor?
+                    let lines = field(&f, "lines");
+                    let has_token = lines
+                        .trim_start_matches('{')
+                        .split('|')
+                        .find(|l| l.starts_with(&format!("{}:", line)))
+                        .map(|l| l[line.len() + 1..].split("} sorted").next().unwrap_or("").split(' ').filter(|t| !t.is_empty()).count() > idx)
+                        .unwrap_or(false);
+                    if !has_token {
+                        continue;
+                    }
+                    if let Some(j) = (i + 1..case.ops.len()).find(|&j| case.ops[j] == "take") {
+                        let first = replies[j].split(' ').next().unwrap_or("");
+                        if first != format!("T:{}", line) {
+                            res = Err(format!("the call at op {} executes a statement of line {} (token {}) but its output {} does not start with T:{}", i, line, idx, replies[j], line));
+                            break;
+                        }
+                    }
+                }
+            }
+            res
+        }
         ["no-syntax-error"] => {
             let mut res = Ok(());
             for i in 0..case.ops.len() {
